@@ -14,7 +14,9 @@ MANIFEST = {
             "sequence, sps, sampling instant inside the slot, CW amplitude, responsivity, load, MZM loss/ER/Vpi/bias and DAC "
             "amplitude/bias with distinct ON/OFF levels, in both polarisation layouts; decision_margin: for any received "
             "sequence closer than half the level gap to its levels the mid-level decision returns the bits (bridge to the "
-            "filtered/dispersed chain, whose margin is measured on the real code for every case); the error counter is k/n for k "
+            "filtered/dispersed chain, whose margin is measured on the real code for every case); the detected level depends on "
+            "the DAC bias and the MZM bias only through their sum, with period 2*Vpi (rx_bias_interchange, rx_bias_period: the "
+            "push-pull and shifted drive arrangements are one link); the error counter is k/n for k "
             "flipped bits and 0 for identical sequences.  Tie: the waveform entering PD's output filter (spied) is compared with "
             "the model's received waveform at Float, the counter with the model's count; the whole real chain, ook.DSP and "
             "ppm.DSP (soft, and hard with estimated threshold) are run by the oracle.",
